@@ -18,7 +18,7 @@ from __future__ import annotations
 import ast
 
 from ..core.loader import AnalysisError, Project
-from .common import const_value, local_names
+from .common import bind_call, const_value, expand_locals, fn_view, local_names, stmts_in_order
 
 AP = "persim.landscapes.approximate.PersLandscapeApprox"
 LSC = "persim.landscapes.transformer.PersistenceLandscaper"
@@ -29,75 +29,95 @@ def _kw(call):
 
 
 def check_fwd(project: Project, rep):
+    """GL-FWD, decided by executing `transform` symbolically on a transformer whose parameters are independent symbols and
+    observing (not executing) the construction of the approximate landscape: which value reaches which constructor
+    parameter, and what is returned under flatten=True / False."""
+    from ..core import sym
+    from ..core.absint import Config, Interp
+    from ..core.values import Arr, ObjV, Sc, Seq, fresh, rows, Unknown
+    from .distances import dgm_input
     c = project.cls(LSC)
     tr = c.methods.get("transform")
     if tr is None:
         raise AnalysisError("GL-FWD: transform not found")
     rep.analysed(tr)
-    data = tr.params[1]
-    locs = local_names(tr.node)
-    ctor = [n for n in ast.walk(tr.node) if isinstance(n, ast.Call) and project.resolve(tr.module, n.func, locs) == AP]
-    if len(ctor) != 1:
-        rep.refuted("GL-FWD", tr, tr.node, f"transform builds {len(ctor)} approximate landscapes instead of delegating to exactly "
-                                           f"one", construct=f"{tr.qualname}: delegation")
-        return
-    kws = _kw(ctor[0])
-    want = {"dgms": data, "start": "self.start", "stop": "self.stop", "num_steps": "self.num_steps", "hom_deg": "self.hom_deg"}
-    bad = {k: (kws.get(k), v) for k, v in want.items() if kws.get(k) != v}
-    if ctor[0].args:
-        rep.unmodelled("GL-FWD", tr, ctor[0], "positional arguments to the landscape constructor")
-    elif bad:
-        rep.refuted("GL-FWD", tr, ctor[0], "the transformer does not forward its own parameters: " +
-                    "; ".join(f"{k}={g} (should be {w})" for k, (g, w) in bad.items()))
-    else:
-        rep.discharged("GL-FWD", tr, ctor[0], "PersLandscapeApprox(dgms=X, start/stop/num_steps/hom_deg = the transformer's own)")
-    res = [n.targets[0].id for n in ast.walk(tr.node) if isinstance(n, ast.Assign) and n.value is ctor[0]
-           and isinstance(n.targets[0], ast.Name)]
-    rname = res[0] if res else None
-    rets = [n for n in ast.walk(tr.node) if isinstance(n, ast.Return)]
-    flat_ok = plain_ok = False
-    for r in rets:
-        txt = ast.unparse(r.value).replace("(", "").replace(")", "")
-        cond = None
-        for i in ast.walk(tr.node):
-            if isinstance(i, ast.If) and any(x is r for s in i.body for x in ast.walk(s)):
-                cond = (ast.unparse(i.test), True)
-            elif isinstance(i, ast.If) and any(x is r for s in i.orelse for x in ast.walk(s)):
-                cond = (ast.unparse(i.test), False)
-        if txt == f"{rname}.values.flatten" and cond == ("self.flatten", True):
-            flat_ok = True
-        elif txt == f"{rname}.values" and cond in (("self.flatten", False), None):
-            plain_ok = True
+    want = ("start", "stop", "num_steps", "hom_deg")
+    for flat in (True, False):
+        d, g = fresh(), fresh()
+        vals = Arr([(rows("D"), d), (rows("G"), g)], sym.In("vals", ((d, 0), (g, 0))))
+
+        def stub(I, bound, n, vals=vals):
+            return ObjV(AP, {"values": vals, **{k: v for k, v in bound.items() if k in want}})
+        I = Interp(project, Config(nonempty={("rows", "D"), ("rows", "G"), ("rows", "X0")}, finite_inputs={"vals", "X0"},
+                                   flags={"stub_ctor": {AP: stub}}))
+        me = ObjV(LSC, {**{k: Sc(sym.Sym(f"self_{k}")) for k in want}, "flatten": Sc(sym.Bool(flat))})
+        X = Seq([dgm_input("X0"), dgm_input("X1")], "list")
+        try:
+            r = I.call_function(tr, [me, X], {}, None)
+        except Exception as ex:
+            rep.unmodelled("GL-FWD", tr, tr.node, f"symbolic execution of transform failed: {type(ex).__name__}: {ex}"[:200])
+            return
+        cons = [ev for ev in I.log if ev["kind"] == "construct" and ev["cls"] == AP]
+        if len(cons) != 1:
+            rep.refuted("GL-FWD", tr, tr.node, f"transform builds {len(cons)} approximate landscapes instead of delegating to "
+                                               f"exactly one", construct=f"{tr.qualname}: delegation")
+            return
+        if flat:
+            bound = cons[0]["args"]
+            bad, unk = [], []
+            for k in want:
+                v = bound.get(k)
+                if isinstance(v, Sc) and v.e == sym.Sym(f"self_{k}"):
+                    continue
+                (unk if (v is None or isinstance(v, Unknown)) and k in bound else bad).append(
+                    f"{k}={sym.show(v.e)[:60] if isinstance(v, Sc) else ('<default>' if v is None else type(v).__name__)} "
+                    f"(should be self.{k})")
+            if bound.get("dgms") is not X:
+                bad.append("dgms is not the data passed to transform")
+            if bad:
+                rep.refuted("GL-FWD", tr, cons[0]["node"], "the transformer does not forward its own parameters: " + "; ".join(bad))
+            elif unk:
+                rep.unmodelled("GL-FWD", tr, cons[0]["node"], "constructor arguments not modelled: " + "; ".join(unk))
+            else:
+                rep.discharged("GL-FWD", tr, cons[0]["node"], "PersLandscapeApprox(dgms=X, start/stop/num_steps/hom_deg = the "
+                                                              "transformer's own)")
+        is_vals = isinstance(r, Arr) and r.ndim == 2 and r.elem == vals.elem and \
+            all(x[0].same_size(y[0]) for x, y in zip(r.axes, vals.axes))
+        flat_c = is_vals and getattr(r, "flat", None) == "C"
+        plain = is_vals and getattr(r, "flat", None) is None
+        rets = [ev for ev in I.log if ev["kind"] == "return" and ev["fi"] is tr]
+        node = rets[-1]["node"] if rets else tr.node
+        if (flat and flat_c) or (not flat and plain):
+            rep.discharged("GL-FWD", tr, node, f"flatten={flat}: returns the landscape's sampled values" +
+                           (" flattened row-major" if flat else " as a (depth × grid) array"))
+        elif is_vals or isinstance(r, (Arr, Sc)):
+            rep.refuted("GL-FWD", tr, node, f"flatten={flat}: transform returns {r!r}"[:200] +
+                        ": not the sampled values of the approximate landscape (flattened iff `flatten`)")
         else:
-            rep.refuted("GL-FWD", tr, r, f"transform returns `{ast.unparse(r.value)}`" + (f" when {cond[0]} is {cond[1]}" if cond else "")
-                        + ": not the sampled values of the approximate landscape (flattened iff `flatten`)")
-    if flat_ok and plain_ok:
-        rep.discharged("GL-FWD", tr, tr.node, "returns .values, or .values.flatten() exactly when self.flatten")
-    elif not any(True for _ in rets):
-        rep.refuted("GL-FWD", tr, tr.node, "transform returns nothing")
-    if any(b.endswith("TransformerMixin") for b in c.bases) and "fit_transform" not in c.methods:
+            rep.unmodelled("GL-FWD", tr, node, f"flatten={flat}: returned value not modelled: {r!r}"[:200])
+    if any(b_.endswith("TransformerMixin") for b_ in c.bases) and "fit_transform" not in c.methods:
         rep.discharged("GL-FWD", tr, c.node, "fit_transform is scikit-learn's fit(X).transform(X)", nontrivial=False)
 
 
-def _linspace_calls(project, fi):
-    locs = local_names(fi.node)
-    return [n for n in ast.walk(fi.node) if isinstance(n, ast.Call) and project.resolve(fi.module, n.func, locs) == "numpy.linspace"]
+def _linspace_calls(project, fi, f):
+    locs = local_names(f)
+    return [n for n in ast.walk(f) if isinstance(n, ast.Call) and project.resolve(fi.module, n.func, locs) == "numpy.linspace"]
 
 
-def _grid_args(call):
+def _grid_args(f, call):
     kws = {k.arg: k.value for k in call.keywords}
     pos = list(call.args)
     start = pos[0] if len(pos) > 0 else kws.get("start")
     stop = pos[1] if len(pos) > 1 else kws.get("stop")
     num = pos[2] if len(pos) > 2 else kws.get("num")
     ep = kws.get("endpoint")
-    return (ast.unparse(start) if start is not None else None, ast.unparse(stop) if stop is not None else None,
-            ast.unparse(num) if num is not None else None, ep)
+    txt = lambda e: ast.unparse(expand_locals(f, e)) if e is not None else None
+    return txt(start), txt(stop), txt(num), ep
 
 
-def _owner_grid(call):
+def _owner_grid(f, call):
     """(owner, start, stop, num, endpoint) if the call is np.linspace(X.start, X.stop, …) for one name X"""
-    s, e, n, ep = _grid_args(call)
+    s, e, n, ep = _grid_args(f, call)
     if s and s.endswith(".start") and e and e.endswith(".stop") and s[:-6] == e[:-5]:
         return s[:-6], s, e, n, ep
     if s and s.endswith(".start"):
@@ -116,15 +136,23 @@ def check_grid(project: Project, rep):
     for q, role in sites:
         fi = project.function(q)
         rep.analysed(fi)
-        calls = [(c, _owner_grid(c)) for c in _linspace_calls(project, fi)]
+        f = fn_view(project, fi)
+        calls = [(c, _owner_grid(f, c)) for c in _linspace_calls(project, fi, f)]
         mine = [(c, g) for c, g in calls if g is not None]
         if role == "source":
             pref = [(c, g) for c, g in mine if g[3] == f"{g[0]}.num_steps"]
             mine = pref or mine
         if not mine:
-            rep.refuted("GL-GRID", fi, fi.node, f"{q.rsplit('.', 1)[1]} no longer rebuilds the landscape's grid with "
-                                                f"np.linspace(<landscape>.start, <landscape>.stop, <landscape>.num_steps)",
-                        construct=f"{q}: grid reconstruction")
+            locs_ = local_names(f)
+            ar = [n for n in ast.walk(f) if isinstance(n, ast.Call) and project.resolve(fi.module, n.func, locs_) == "numpy.arange"
+                  and any(isinstance(x, ast.Attribute) and x.attr in ("start", "stop") for x in ast.walk(n))]
+            if ar:
+                rep.refuted("GL-GRID", fi, ar[0], f"{q.rsplit('.', 1)[1]} rebuilds the landscape's grid with `{ast.unparse(ar[0])[:80]}` "
+                                                  f"instead of np.linspace(<landscape>.start, <landscape>.stop, <landscape>.num_steps): "
+                                                  f"the number of nodes and the last node differ from the grid the values were "
+                                                  f"sampled on", construct=f"{q}: grid reconstruction")
+            else:
+                rep.unmodelled("GL-GRID", fi, fi.node, f"{q.rsplit('.', 1)[1]}: how the landscape's grid is rebuilt was not recognised")
             continue
         c, (owner, s, e, n, ep) = mine[0]
         # in the simple approximate plot the number of nodes is the length of the row being plotted
@@ -132,7 +160,7 @@ def check_grid(project: Project, rep):
         if q.endswith("approx_simple") and n and n.startswith("len(") and n.endswith(")"):
             v = n[4:-1]
             row_len = any(isinstance(x, ast.Call) and isinstance(x.func, ast.Attribute) and x.func.attr == "plot"
-                          and len(x.args) >= 2 and ast.unparse(x.args[1]) == v for x in ast.walk(fi.node))
+                          and len(x.args) >= 2 and ast.unparse(expand_locals(f, x.args[1])) == v for x in ast.walk(f))
         num_ok = n == f"{owner}.num_steps" or row_len
         ep_ok = ep is None or (isinstance(ep, ast.Constant) and ep.value is True)
         if e == f"{owner}.stop" and num_ok and ep_ok:
@@ -152,26 +180,37 @@ def check_grid(project: Project, rep):
     for q in ("persim.landscapes.tools.snap_pl", "persim.landscapes.tools.vectorize"):
         fi = project.function(q)
         rep.analysed(fi)
-        tg = [c for c in _linspace_calls(project, fi) if _grid_args(c)[:3] == ("start", "stop", "num_steps")]
-        if tg and _grid_args(tg[0])[3] is None:
+        f = fn_view(project, fi)
+        if len(fi.params) < 4:
+            rep.unmodelled("GL-GRID", fi, fi.node, f"unexpected signature {fi.params}")
+            continue
+        P3 = tuple(fi.params[1:4])
+        all_ls = _linspace_calls(project, fi, f)
+        tg = [c for c in all_ls if _grid_args(f, c)[:3] == P3]
+        others = [c for c in all_ls if _grid_args(f, c)[:3] != P3 and _owner_grid(f, c) is None]
+        if tg and _grid_args(f, tg[0])[3] is None:
             rep.discharged("GL-GRID", fi, tg[0], "target grid = np.linspace(start, stop, num_steps) of the requested parameters")
+        elif tg or others:
+            c_ = (tg or others)[0]
+            rep.refuted("GL-GRID", fi, c_, f"{q.rsplit('.', 1)[1]}: the target grid is `{ast.unparse(c_)[:80]}`, not "
+                                           f"np.linspace(start, stop, num_steps)", construct=f"{q}: target grid")
         else:
-            rep.refuted("GL-GRID", fi, fi.node, f"{q.rsplit('.', 1)[1]}: the target grid is not np.linspace(start, stop, num_steps)",
-                        construct=f"{q}: target grid")
-        ctor = [n for n in ast.walk(fi.node) if isinstance(n, ast.Call) and project.resolve(fi.module, n.func, local_names(fi.node)) == AP]
+            rep.unmodelled("GL-GRID", fi, fi.node, f"{q.rsplit('.', 1)[1]}: the target grid was not recognised")
+        ctor = [n for n in ast.walk(f) if isinstance(n, ast.Call) and project.resolve(fi.module, n.func, local_names(f)) == AP]
         if ctor:
-            kws = _kw(ctor[0])
-            if (kws.get("start"), kws.get("stop"), kws.get("num_steps")) == ("start", "stop", "num_steps"):
+            init = project.cls(AP).methods["__init__"]
+            kws = {k: ast.unparse(expand_locals(f, v)) for k, v in bind_call(init.node, ctor[0], receiver=True).items()}
+            if (kws.get("start"), kws.get("stop"), kws.get("num_steps")) == P3:
                 rep.discharged("GL-GRID", fi, ctor[0], "the result declares the same grid it was sampled on", nontrivial=False)
             else:
                 rep.refuted("GL-GRID", fi, ctor[0], f"the result declares grid ({kws.get('start')}, {kws.get('stop')}, "
-                                                    f"{kws.get('num_steps')}) but was sampled on (start, stop, num_steps)")
+                                                    f"{kws.get('num_steps')}) but was sampled on {P3}")
 
 
 def check_snap(project: Project, rep):
     fi = project.function("persim.landscapes.auxiliary.ndsnap_regular")
     rep.analysed(fi)
-    f = fi.node
+    f = fn_view(project, fi)
     locs = local_names(f)
     arg = [n for n in ast.walk(f) if isinstance(n, ast.Call) and project.resolve(fi.module, n.func, locs) in ("numpy.argmin", "numpy.argmax")]
     if len(arg) != 1:
@@ -196,30 +235,44 @@ def check_snap(project: Project, rep):
         else:
             rep.discharged("GL-SNAP", fi, c, "per coordinate, the node at argmin(|node − x|) over the grid axis is selected (error "
                                              "≤ step/2)")
-        # diff = ax[:, newaxis] - points[:, i]
-        diffs = [n for n in ast.walk(f) if isinstance(n, ast.Assign) and isinstance(n.value, ast.BinOp) and isinstance(n.value.op, ast.Sub)]
-        if diffs:
-            d = diffs[0].value
-            ok = "newaxis" in ast.unparse(d.left) + ast.unparse(d.right) or "None" in ast.unparse(d.left) + ast.unparse(d.right)
-            loopvar = [n for n in ast.walk(f) if isinstance(n, ast.For)]
-            col_ok = bool(loopvar) and isinstance(loopvar[0].target, ast.Tuple) and \
-                f"[:, {loopvar[0].target.elts[0].id}]" in ast.unparse(d)
-            if ok and col_ok:
-                rep.discharged("GL-SNAP", fi, diffs[0], "coordinate i of every point is compared with axis i of the grid")
+        # diff = ax[:, newaxis] - points[:, i]   (i, ax) from enumerate(grid axes)
+        from .common import enclosing_iterations
+        inner_e = expand_locals(f, inner) if inner is not None else None
+        subs = [x for x in ast.walk(inner_e) if isinstance(x, ast.BinOp) and isinstance(x.op, ast.Sub)] if inner_e is not None else []
+        its = enclosing_iterations(f, c)
+        pair = [(t, it) for t, it in its if isinstance(t, ast.Tuple) and len(t.elts) == 2 and isinstance(it, ast.Call)
+                and ast.unparse(it.func) == "enumerate" and all(isinstance(e, ast.Name) for e in t.elts)]
+        if subs and pair:
+            d = subs[0]
+            ivar, axvar = (e.id for e in pair[0][0].elts)
+            txt = ast.unparse(d.left) + " ~ " + ast.unparse(d.right)
+            bc = "newaxis" in txt or "None" in txt
+            pts = fi.params[0]
+            col_i = f"{pts}[:, {ivar}]" in txt
+            uses_ax = any(isinstance(x, ast.Name) and x.id == axvar for x in ast.walk(d))
+            other_col = [x for x in ast.walk(d) if isinstance(x, ast.Subscript) and isinstance(x.value, ast.Name) and x.value.id == pts
+                         and isinstance(x.slice, ast.Tuple) and len(x.slice.elts) == 2 and not (
+                             isinstance(x.slice.elts[1], ast.Name) and x.slice.elts[1].id == ivar)]
+            if bc and col_i and uses_ax:
+                rep.discharged("GL-SNAP", fi, c, "coordinate i of every point is compared with axis i of the grid")
+            elif other_col:
+                rep.refuted("GL-SNAP", fi, c, f"`{ast.unparse(d)}` does not compare coordinate i of the points with grid axis i")
             else:
-                rep.refuted("GL-SNAP", fi, diffs[0], f"`{ast.unparse(diffs[0])}` does not compare coordinate i of the points with "
-                                                     f"grid axis i")
+                rep.unmodelled("GL-SNAP", fi, c, f"`{ast.unparse(d)[:80]}`: pairing of coordinates with grid axes not recognised")
+        else:
+            rep.unmodelled("GL-SNAP", fi, c, "pairing of coordinates with grid axes not recognised")
     cl = project.function(f"{AP}.compute_landscape")
-    calls = [n for n in ast.walk(cl.node) if isinstance(n, ast.Call) and
-             project.resolve(cl.module, n.func, local_names(cl.node)) == "persim.landscapes.auxiliary.ndsnap_regular"]
+    clv = fn_view(project, cl)
+    calls = [n for n in ast.walk(clv) if isinstance(n, ast.Call) and
+             project.resolve(cl.module, n.func, local_names(clv)) == "persim.landscapes.auxiliary.ndsnap_regular"]
     if calls:
         c = calls[0]
         star = [a for a in c.args if isinstance(a, ast.Starred)]
         axes = []
         if star and isinstance(star[0].value, ast.Tuple):
-            axes = [ast.unparse(e) for e in star[0].value.elts]
+            axes = [ast.unparse(expand_locals(clv, e)) for e in star[0].value.elts]
         else:
-            axes = [ast.unparse(a) for a in c.args[1:]]
+            axes = [ast.unparse(expand_locals(clv, a)) for a in c.args[1:]]
         if len(axes) == 2 and axes[0] == axes[1]:
             rep.discharged("GL-SNAP", cl, c, f"births and deaths are snapped to the same axis `{axes[0]}`")
         else:
@@ -233,7 +286,7 @@ def check_index(project: Project, rep):
     """GL-INDEX: the position of a snapped end-point on the grid comes from an exact lookup or a rounded quotient —
     never from int() truncation of a float quotient ((g_i − start)/step evaluates to i − ε for many i)"""
     cl = project.function(f"{AP}.compute_landscape")
-    f = cl.node
+    f = fn_view(project, cl)
     used_as_index = set()
     for n in ast.walk(f):
         if isinstance(n, ast.Subscript):
@@ -270,7 +323,15 @@ def check_index(project: Project, rep):
             # lookup in a table built from the grid itself
             tab = v.value.id
             src = [a for a in ast.walk(f) if isinstance(a, ast.Assign) and isinstance(a.targets[0], ast.Name) and a.targets[0].id == tab]
-            if src and "zip" in ast.unparse(src[0].value) and "dict" in ast.unparse(src[0].value):
+            sv = src[0].value if src else None
+            by_zip = sv is not None and "zip" in ast.unparse(sv) and "dict" in ast.unparse(sv)
+            # {value: position for position, value in enumerate(grid)}
+            by_comp = isinstance(sv, ast.DictComp) and len(sv.generators) == 1 and isinstance(sv.generators[0].iter, ast.Call) \
+                and ast.unparse(sv.generators[0].iter.func) == "enumerate" and isinstance(sv.generators[0].target, ast.Tuple) \
+                and len(sv.generators[0].target.elts) == 2 \
+                and ast.unparse(sv.key) == ast.unparse(sv.generators[0].target.elts[1]) \
+                and ast.unparse(sv.value) == ast.unparse(sv.generators[0].target.elts[0])
+            if by_zip or by_comp:
                 found += 1
                 rep.discharged("GL-INDEX", cl, n, f"grid index `{name}` is an exact lookup of the snapped value in the grid's own "
                                                   f"value→position table")
@@ -281,52 +342,71 @@ def check_index(project: Project, rep):
 def check_dv_inf(project: Project, rep):
     fi = project.function("persim.landscapes.tools.death_vector")
     rep.analysed(fi)
-    f = fi.node
-    guard = [n for n in ast.walk(f) if isinstance(n, ast.If) and "hom_deg" in ast.unparse(n.test) and any(isinstance(s, ast.Raise) for s in n.body)]
-    if guard and ast.unparse(guard[0].test).replace(" ", "") in ("hom_deg!=0", "hom_deg>0", "nothom_deg==0"):
+    f = fn_view(project, fi)
+    P_DGMS, P_DEG = (fi.params + ["dgms", "hom_deg"])[:2]
+    guard = [n for n in ast.walk(f) if isinstance(n, ast.If) and P_DEG in ast.unparse(n.test) and _always_raises(n.body)]
+    ok_guard = {f"{P_DEG}!=0", f"{P_DEG}>0", f"not{P_DEG}==0", f"0!={P_DEG}", f"0<{P_DEG}", f"{P_DEG}>=1"}
+    if guard and ast.unparse(guard[0].test).replace(" ", "") in ok_guard:
         rep.discharged("GL-DV", fi, guard[0], "hom_deg ≠ 0 is rejected", nontrivial=False)
+    elif guard:
+        rep.unmodelled("GL-DV", fi, guard[0], f"degree guard `{ast.unparse(guard[0].test)}` not recognised")
     else:
         rep.refuted("GL-DV", fi, f, "death_vector no longer rejects homological degrees other than 0", construct=f"{fi.qualname}: guard")
     rets = [n for n in ast.walk(f) if isinstance(n, ast.Return) and n.value is not None]
-    ok = False
     for r in rets:
-        v = r.value
+        v = expand_locals(f, r.value)
         txt = ast.unparse(v).replace(" ", "")
         desc = ("sorted(" in txt and "reverse=True" in txt) or ("np.sort(" in txt and txt.endswith("[::-1]")) or \
                ("-np.sort(-" in txt)
-        col = "dgms[hom_deg][:,1]" in txt
+        col = f"{P_DGMS}[{P_DEG}][:,1]" in txt or f"{P_DGMS}[0][:,1]" in txt
+        other_col = f"{P_DGMS}[{P_DEG}][:,0]" in txt
         if desc and col:
-            ok = True
             rep.discharged("GL-DV", fi, r, "returns the death column of dgms[hom_deg] sorted in non-increasing order")
         elif col and ("sorted(" in txt or "np.sort(" in txt):
             rep.refuted("GL-DV", fi, r, f"`{ast.unparse(v)}` sorts the deaths in increasing order")
-        elif desc:
+        elif desc and other_col:
             rep.refuted("GL-DV", fi, r, f"`{ast.unparse(v)}` does not sort column 1 (deaths) of dgms[hom_deg]")
-        else:
+        elif col:
             rep.refuted("GL-DV", fi, r, f"`{ast.unparse(v)}` is not the descending sort of the death column")
+        else:
+            rep.unmodelled("GL-DV", fi, r, f"`{ast.unparse(v)[:80]}`: form of the death vector not recognised")
     # GL-INF in PersLandscapeApprox.__init__
     init = project.function(f"{AP}.__init__")
     rep.analysed(init)
-    body = init.node
+    body = fn_view(project, init)
+    order = {id(st): k for k, st in enumerate(stmts_in_order(body))}
+    P_START, P_STOP = "start", "stop"
     stores = [n for n in ast.walk(body) if isinstance(n, ast.Assign) and isinstance(n.targets[0], ast.Attribute)
               and n.targets[0].attr == "dgms"]
-    filt = [n for n in stores if "inf" in ast.unparse(n.value)]
-    mins = [n for n in ast.walk(body) if isinstance(n, ast.Assign) and isinstance(n.targets[0], ast.Name) and n.targets[0].id in ("start", "stop")
-            and isinstance(n.value, ast.Subscript)]
-    if filt and mins and all(filt[0].lineno < m.lineno for m in mins):
+    filt = [n for n in stores if "inf" in ast.unparse(expand_locals(body, n.value))]
+    mins = [n for n in ast.walk(body) if isinstance(n, ast.Assign) and isinstance(n.targets[0], ast.Name)
+            and n.targets[0].id in (P_START, P_STOP) and isinstance(n.value, ast.Subscript)]
+    if filt and mins and all(order[id(filt[0])] < order[id(m)] for m in mins) \
+            and all("self.dgms" in ast.unparse(m.value) for m in mins):
         rep.discharged("GL-INF", init, filt[0], "rows containing inf are removed before start/stop are derived from the data")
-    else:
+    elif mins and (not filt or any(order[id(filt[0])] > order[id(m)] for m in mins)):
         rep.refuted("GL-INF", init, body, "start/stop defaults are derived before infinite bars are removed (stop becomes inf)",
                     construct=f"{init.qualname}: inf removal order")
+    else:
+        rep.unmodelled("GL-INF", init, body, "how start/stop default from the data was not recognised")
     for m in mins:
         txt = ast.unparse(m.value).replace(" ", "")
-        want = {"start": "min(self.dgms,key=itemgetter(0))[0]", "stop": "max(self.dgms,key=itemgetter(1))[1]"}[m.targets[0].id]
-        if txt == want:
-            rep.discharged("GL-INF", init, m, f"default {m.targets[0].id} = {'min birth' if m.targets[0].id == 'start' else 'max death'}")
-        else:
-            rep.refuted("GL-INF", init, m, f"default {m.targets[0].id} is `{ast.unparse(m.value)}`, not the "
-                                           f"{'smallest birth' if m.targets[0].id == 'start' else 'largest death'}: the grid does not "
+        which = m.targets[0].id
+        good = {P_START: {"min(self.dgms,key=itemgetter(0))[0]", "min(self.dgms,key=lambdax:x[0])[0]"},
+                P_STOP: {"max(self.dgms,key=itemgetter(1))[1]", "max(self.dgms,key=lambdax:x[1])[1]"}}[which]
+        recognised = txt.startswith(("min(self.dgms,key=itemgetter(", "max(self.dgms,key=itemgetter("))
+        if txt in good:
+            rep.discharged("GL-INF", init, m, f"default {which} = {'min birth' if which == P_START else 'max death'}")
+        elif recognised:
+            rep.refuted("GL-INF", init, m, f"default {which} is `{ast.unparse(m.value)}`, not the "
+                                           f"{'smallest birth' if which == P_START else 'largest death'}: the grid does not "
                                            f"cover the diagram")
+        else:
+            rep.unmodelled("GL-INF", init, m, f"default {which} `{ast.unparse(m.value)[:80]}` not recognised")
+
+
+def _always_raises(stmts) -> bool:
+    return any(isinstance(x, ast.Raise) for x in stmts)
 
 
 def run(project: Project, rep, tier: str):
